@@ -637,6 +637,16 @@ def b_anyall(eng, st, args, kwargs, node, is_any):
     raise Unsupported("any/all over %s" % v.kind)
 
 
+def count_less(row, n, x):
+    """|{i in [0,n) : row[i] < x}| for an int row (library-level mathematical function; facts about it are emitted by
+    list.sort and by the contracts that use it)."""
+    return uf("count_less", row.sort(), z3.IntSort(), z3.IntSort(), z3.IntSort())(row, n, x)
+
+
+def all_distinct(row, n):
+    return uf("all_distinct", row.sort(), z3.IntSort(), z3.BoolSort())(row, n)
+
+
 def sorted_pos(lst_term, key_term):
     """Library witness: the position in sorted(...)'s result of (an) element with this key."""
     return uf("sorted_pos_" + str(key_term.sort()), z3.IntSort(), key_term.sort(), z3.IntSort())(lst_term, key_term)
@@ -1115,7 +1125,7 @@ def m_list_sort(eng, st, recv, args, kwargs, node):
     k = recv.kind
     n = eng.list_len(st, recv)
     _, e_ = eng.lnames(k)
-    old = eng.harr(st, e_)[recv.term]
+    old = z3.simplify(eng.harr(st, e_)[recv.term])
     arr = st.fresh("sorted", z3.ArraySort(z3.IntSort(), sort_of(k.elem)))
     perm = st.fresh("sortperm", z3.ArraySort(z3.IntSort(), z3.IntSort()))
     inv = st.fresh("sortinv", z3.ArraySort(z3.IntSort(), z3.IntSort()))
@@ -1127,8 +1137,14 @@ def m_list_sort(eng, st, recv, args, kwargs, node):
     else:
         raise Unsupported("list.sort of %s" % k)
     eng.assume(st, qforall([j], z3.Implies(z3.And(0 <= j, j < n), z3.And(0 <= perm[j], perm[j] < n, arr[j] == old[perm[j]], inv[perm[j]] == j)), patterns=[arr[j]]))
-    eng.assume(st, qforall([i], z3.Implies(z3.And(0 <= i, i < n), z3.And(0 <= inv[i], inv[i] < n, perm[inv[i]] == i)), patterns=[old[i]]))
+    eng.assume(st, qforall([i], z3.Implies(z3.And(0 <= i, i < n), z3.And(0 <= inv[i], inv[i] < n, perm[inv[i]] == i, arr[inv[i]] == old[i])), patterns=[old[i]]))
     eng.assume(st, qforall([i, j], z3.Implies(z3.And(0 <= i, i < j, j < n), le), patterns=[z3.MultiPattern(arr[i], arr[j])]))
+    if k.elem is KInt:
+        # rank fact of sorting a duplicate-free list: the j-th element of the result has exactly j old elements below it
+        # (count_less(row, n, x) = |{i < n : row[i] < x}|, a mathematical function of the old contents)
+        old_s = z3.simplify(old)
+        eng.assume(st, z3.Implies(all_distinct(old_s, n), qforall([j], z3.Implies(z3.And(0 <= j, j < n), count_less(old_s, n, arr[j]) == j),
+                                                                  patterns=[arr[j]])))
     st.heap[e_] = z3.Store(eng.harr(st, e_), recv.term, arr)
     st.ghost["last_sorted"] = recv
     st.ghost["last_sorted_heap"] = dict(st.heap)
